@@ -113,8 +113,9 @@ def canon(s):
         if o == ">=":
             return ["op", "<=", b, a]
         if o == "!=":
-            return ["not", canon(["op", "==", a, b])]
-        if o in ("==", "|", "&", "+", "*", "^", "||", "&&") and o not in ("||", "&&"):
+            return canon(["not", canon(["op", "==", a, b])])
+        if o in ("==", "|", "&", "+", "*", "^", "||", "&&"):
+            # commutative (conditions in this crate are side-effect free, so || and && commute as well)
             if json.dumps(a, sort_keys=True) > json.dumps(b, sort_keys=True):
                 a, b = b, a
         if a[0] == "n" and b[0] == "n":
@@ -148,6 +149,10 @@ def canon(s):
             return ["op", "<=", a[3], a[2]]
         if a[0] == "op" and a[1] == "<=":
             return ["op", "<", a[3], a[2]]
+        if a[0] == "op" and a[1] == "==" and a[2] == ["n", 0]:
+            return ["op", "<", ["n", 0], a[3]]  # unsigned: x != 0  ==  0 < x
+        if a[0] == "op" and a[1] == "==" and a[3] == ["n", 0]:
+            return ["op", "<", ["n", 0], a[2]]
         return s
     if t == "fld":
         x, name = s[1], s[2]
@@ -1659,6 +1664,18 @@ class Ev:
             if is_try(e) is not None:
                 return ["opaque", "? in value position"]
             sc = self.sym(e["scrut"], env, gen)
+            if len(e["arms"]) == 2:
+                some_arm = none_arm = None
+                for a in e["arms"]:
+                    p = a["pat"]
+                    if p["k"] == "ptuplestruct" and p["res"]["path"] == "core::option::Option::Some" and len(p["pats"]) == 1 and p["pats"][0]["k"] == "bind":
+                        some_arm = a
+                    elif (p["k"] == "pexpr" and p["e"].get("path") == "core::option::Option::None") or p["k"] == "wild":
+                        none_arm = a
+                if some_arm is not None and none_arm is not None and none_arm.get("guard") is None and some_arm.get("guard") is None:
+                    body = strip(some_arm["body"])
+                    if body.get("k") == "local" and body["id"] == some_arm["pat"]["pats"][0]["id"]:
+                        return ["mcall", "core::option::Option::<T>::unwrap_or", [sc, self.sym(none_arm["body"], env, gen)]]
             arms = []
             for a in e["arms"]:
                 env2 = dict(env)
